@@ -260,6 +260,80 @@ def ports_leg(ck, S, singles):
             ck.nontrivial(('ports', ports, dflt, threads))
 
 
+def schedule_leg(ck, tier, S, rnd):
+    """Two targets on two worker threads, the threads driven through every schedule SshSched.tla generates (quick: one preemption,
+    thorough: two - every pair of positions "A has done i network operations, B has done j" is visited): each target's JSON
+    result equals its single-target result whatever the schedule.  Targets are chosen so that whatever one audit leaves behind
+    would show in the other: a certificate host key next to a plain one, small next to large keys and moduli, the same host on two
+    ports."""
+    cert = dict(S)
+    hk_cert = {'ssh-rsa-cert-v01@openssh.com': rating.hostkey_blob('ssh-rsa-cert-v01@openssh.com', (3072, 'ssh-rsa', 1024)), 'ssh-ed25519': peers.ed25519_blob()}
+    cert['cert'] = peers.ServerCfg(banner=b'SSH-2.0-OpenSSH_8.9', kexinit={'kex': ['curve25519-sha256'], 'key': ['ssh-rsa-cert-v01@openssh.com', 'ssh-ed25519'],
+                                                                         'enc': ['aes128-ctr'], 'mac': ['hmac-sha2-256'], 'comp': ['none']}, hostkeys=hk_cert)
+    cert['plainrsa'] = peers.ServerCfg(banner=b'SSH-2.0-OpenSSH_8.9', kexinit={'kex': ['curve25519-sha256'], 'key': ['ssh-rsa', 'ssh-ed25519'],
+                                                                             'enc': ['aes128-ctr'], 'mac': ['hmac-sha2-256'], 'comp': ['none']},
+                                       hostkeys={'ssh-rsa': peers.rsa_blob(4096), 'ssh-ed25519': peers.ed25519_blob()})
+    # (a, b, same host?, preemptions in the quick tier)
+    pairs = [('cert', 'plainrsa', False, 2), ('plainrsa', 'cert', False, 1), ('rsa1024', 'rsa4096', False, 1), ('terrapin', 'strict', False, 1), ('rsa1024', 'plainrsa', True, 1),
+             ('cert', 'rsa4096', True, 1)]
+    if tier == 'thorough':
+        pairs += [('gex1024', 'rsa4096', False, 2), ('rsa4096', 'gex1024', True, 2), ('ossh2048', 'cert', False, 2)]
+    total = 0
+    for a, b, same_host, qp in pairs:
+        npre = qp if tier == 'quick' else 2
+        h0, h1 = multi.ip_of(0), (multi.ip_of(0) if same_host else multi.ip_of(1))
+        p0, p1 = 22, (2222 if same_host else 22)
+        labels = ['%s:%d' % (h0, p0), '%s:%d' % (h1, p1)]
+        servers = {(h0, p0): cert[a], (h1, p1): cert[b]}
+        base = {'argv': ['-j', '--skip-rate-test', '--threads', '2', '-T', '{tmp}/targets.txt'], 'servers': servers,
+                'files': {'targets.txt': '%s:%d\n%s:%d\n' % (h0, p0, h1, p1)}, 'observe': True, 'alarm': 60}
+        refs = runner.run_many([{'argv': ['-j', '--skip-rate-test', '%s:%d' % (h, p)], 'servers': servers} for h, p in ((h0, p0), (h1, p1))])
+        probe = runner.run_many([multi.scheduled(base, [[0, -1], [1, -1]], labels)])[0]
+        if any(r.get('harness_error') or r.get('hang') or r.get('exit') not in (0, 2, 3) for r in refs) or probe.get('harness_error') or not probe.get('sched'):
+            raise common.Machinery('schedule leg: reference runs failed for %r' % ((a, b),))
+        ref_docs = [json.loads(r['stdout']) for r in refs]
+        ops = [max(1, probe['sched']['ops'].get(l, 0)) for l in labels]
+        plans, covered = multi.schedule_plans(ck, ops, npre)
+        if npre >= 2:
+            grid = {(i, j) for i in range(ops[0] + 1) for j in range(ops[1] + 1)}
+            common.require(grid <= covered, 'SshSched: two preemptions leave %d of %d positions unvisited' % (len(grid - covered), len(grid)))
+        if len(plans) > (1200 if tier == 'quick' else 6000):
+            plans = rnd.sample(plans, 1200 if tier == 'quick' else 6000)
+        scs = [multi.scheduled(base, pl, labels) for pl in plans]
+        forfeits = 0
+        for pl, r in zip(plans, runner.run_many(scs)):
+            ck.evaluated()
+            total += 1
+            replay = {'targets': [a, b], 'labels': labels, 'plan': pl, 'argv': base['argv'], 'exit': r.get('exit'), 'stdout': (r.get('stdout') or '')[-3000:], 'sched': r.get('sched')}
+            if r.get('harness_error'):
+                raise common.Machinery('scheduled run failed: %r' % r.get('harness_error'))
+            if r.get('hang'):
+                ck.violation('run-did-not-complete scheduled', 'targets %r under the schedule %r: the run never ended' % ((a, b), pl), replay)
+                continue
+            forfeits += (r.get('sched') or {}).get('forfeits', 0)
+            try:
+                doc = json.loads(r['stdout'])
+            except ValueError:
+                ck.violation('multi-json-unparsable scheduled', 'stdout of a scheduled two-target JSON run is not JSON', replay)
+                continue
+            got = {el.get('target'): el for el in doc} if isinstance(doc, list) else {}
+            ok = True
+            for i, lab in enumerate(labels):
+                if lab not in got:
+                    ck.violation('block-missing scheduled', 'no array element for target %s under the schedule %r' % (lab, pl), replay)
+                    ok = False
+                elif got[lab] != ref_docs[i]:
+                    diff = _json_diff(ref_docs[i], got[lab])
+                    ck.violation('isolation scheduled %s%s' % (_channel(diff), ' same-host' if same_host else ''),
+                                 'target %s (%s, next to %s) under the schedule %r: JSON differs from the single-target result at %s' % (lab, (a, b)[i], (b, a)[i], pl, diff[:3]), replay)
+                    ok = False
+            if ok:
+                ck.cov['traces_validated_against_impl'] += 1
+                ck.nontrivial(('scheduled', a, b, same_host, json.dumps(pl)))
+        ck.log('schedule leg: %s next to %s%s: %d + %d network operations, %d schedules (%d forfeited turns)' % (a, b, ' on one host' if same_host else '', ops[0], ops[1], len(plans), forfeits))
+    ck.notes.append('schedule leg: %d scheduled two-target runs (SshSched plans replayed through harness/sched.py)' % total)
+
+
 def run(tier):
     ck = common.Check('C07', tier)
     rnd = random.Random(ck.seed)
@@ -376,6 +450,7 @@ def run(tier):
     unreachable_leg(ck, S, singles)
     granular_leg(ck)
     exception_leg(ck)
+    schedule_leg(ck, tier, S, rnd)
     verdicts = multi.validate(ck, traces)
     for m, tr, (ok, info) in zip(tmeta, traces, verdicts):
         if ok:
